@@ -23,9 +23,12 @@ import (
 	"io"
 	"os"
 	"path/filepath"
+	"runtime"
 	"sort"
 	"strconv"
 	"strings"
+	"sync"
+	"sync/atomic"
 
 	"github.com/sirupsen/logrus"
 
@@ -375,7 +378,10 @@ func doRnd(rec *vtrace.Recorder, scn int, c *tcase, file string) {
 // ---- sequences of requests against ONE long-lived service (spec/ConfigQuerySvc.tla) ----
 
 var entryPath = map[string]string{"D1e": "c/PHYSICS/r/e", "D1f": "c/PHYSICS/r/f", "D1s": "c/PHYSICS/r/" + siblingName,
-	"D2e": "c/ANY/any/e", "D2f": "c/ANY/any/f", "D2s": "c/ANY/any/" + siblingName}
+	"D2e": "c/ANY/any/e", "D2f": "c/ANY/any/f", "D2s": "c/ANY/any/" + siblingName,
+	// entries in subfolders: their relative includes mean the subfolder (S1 has a namesake "sib" one level up, S3 has not)
+	"S1m": "c/PHYSICS/r/sub/main", "S1s": "c/PHYSICS/r/sub/" + siblingName,
+	"S3m": "c/TECHNICAL/r/sub/main", "S3s": "c/TECHNICAL/r/sub/" + siblingName}
 
 // the four candidate entries c/RT/role/x of a lookup (Keys in spec/ConfigQuerySvc.tla)
 var keyQuery = map[string]qrec{"Pr": {"c", "PHYSICS", "r", "x"}, "Ar": {"c", "ANY", "r", "x"},
@@ -470,7 +476,12 @@ type scenario struct {
 	Content map[string][]part `json:"content"`
 	Store   map[string]int    `json:"store"`
 	Backend string            `json:"backend"`
-	Steps   []sstep           `json:"steps"`
+	Stress  *struct {
+		Workers int `json:"workers"`
+		Repeat  int `json:"repeat"`
+		Filler  int `json:"filler"`
+	} `json:"stress"`
+	Steps []sstep `json:"steps"`
 }
 
 func entryQuery(e string) *componentcfg.Query {
@@ -513,6 +524,12 @@ func doScenario(rec *vtrace.Recorder, sc *scenario, file string) {
 			be.put(keyPath(k), payloadX(k, v))
 		}
 	}
+	if sc.Stress != nil {
+		// a bigger store: re-reading it takes longer (entries of another component, never asked for)
+		for i := 0; i < sc.Stress.Filler; i++ {
+			be.put(fmt.Sprintf("zz/ANY/any/filler%04d", i), fmt.Sprintf("filler payload number %d {{ not rendered }}", i))
+		}
+	}
 	svc := be.service() // ONE service for the whole sequence
 	rec.Emit("Reset", "scn", sc.ID, "content", content, "store", store, "backend", sc.Backend)
 	faults := func(f []int) []int {
@@ -521,7 +538,8 @@ func doScenario(rec *vtrace.Recorder, sc *scenario, file string) {
 		}
 		return f
 	}
-	for _, st := range sc.Steps {
+	emit := rec.Emit // a concurrent run aggregates instead (below)
+	step := func(st sstep) {
 		switch st.A {
 		case "Process":
 			vars := map[string]string{}
@@ -539,14 +557,14 @@ func doScenario(rec *vtrace.Recorder, sc *scenario, file string) {
 				cv = [][]string{}
 			}
 			g := got(svc.GetAndProcessComponentConfiguration(entryQuery(st.E), vars))
-			rec.Emit("Process", "scn", sc.ID, "e", st.E, "path", entryPath[st.E], "vars", cv, "varsReal", varsReal,
+			emit("Process", "scn", sc.ID, "e", st.E, "path", entryPath[st.E], "vars", cv, "varsReal", varsReal,
 				"ok", g["ok"], "payload", g["payload"])
 		case "Raw":
 			g := got(svc.GetComponentConfiguration(entryQuery(st.E)))
-			rec.Emit("Raw", "scn", sc.ID, "e", st.E, "path", entryPath[st.E], "ok", g["ok"], "payload", g["payload"])
+			emit("Raw", "scn", sc.ID, "e", st.E, "path", entryPath[st.E], "ok", g["ok"], "payload", g["payload"])
 		case "Invalidate":
 			svc.InvalidateComponentTemplateCache()
-			rec.Emit("Invalidate", "scn", sc.ID)
+			emit("Invalidate", "scn", sc.ID)
 		case "Update":
 			src := source(st.Parts)
 			_, _, err := svc.ImportComponentConfiguration(entryQuery(st.E), src, false)
@@ -555,7 +573,7 @@ func doScenario(rec *vtrace.Recorder, sc *scenario, file string) {
 			if parts == nil {
 				parts = []part{}
 			}
-			rec.Emit("Update", "scn", sc.ID, "e", st.E, "path", entryPath[st.E], "parts", parts, "src", src, "ok", err == nil)
+			emit("Update", "scn", sc.ID, "e", st.E, "path", entryPath[st.E], "parts", parts, "src", src, "ok", err == nil)
 		case "ExternalEdit": // somebody else rewrites the backing file; the service is not told
 			if st.V == 0 {
 				be.remove(keyPath(st.E))
@@ -563,7 +581,7 @@ func doScenario(rec *vtrace.Recorder, sc *scenario, file string) {
 				be.put(keyPath(st.E), payloadX(st.E, st.V))
 			}
 			be.commit()
-			rec.Emit("ExternalEdit", "scn", sc.ID, "e", st.E, "path", keyPath(st.E), "v", st.V)
+			emit("ExternalEdit", "scn", sc.ID, "e", st.E, "path", keyPath(st.E), "v", st.V)
 		case "Resolve":
 			kq := keyQuery[st.E]
 			res := M{"comp": "", "rt": "", "role": "", "entry": ""}
@@ -579,7 +597,7 @@ func doScenario(rec *vtrace.Recorder, sc *scenario, file string) {
 				ok, raw = true, r.Raw()
 				res = M{"comp": r.Component, "rt": apricotpb.RunType_name[int32(r.RunType)], "role": r.RoleName, "entry": r.EntryKey}
 			}
-			rec.Emit("Resolve", "scn", sc.ID, "e", st.E, "path", keyPath(st.E), "f", faults(st.F), "ok", ok, "payload", raw, "res", res)
+			emit("Resolve", "scn", sc.ID, "e", st.E, "path", keyPath(st.E), "f", faults(st.F), "ok", ok, "payload", raw, "res", res)
 		case "GetX":
 			kq := keyQuery[st.E]
 			if len(st.F) > 0 {
@@ -589,12 +607,95 @@ func doScenario(rec *vtrace.Recorder, sc *scenario, file string) {
 			if len(st.F) > 0 {
 				be.faultOff()
 			}
-			rec.Emit("GetX", "scn", sc.ID, "e", st.E, "path", keyPath(st.E), "f", faults(st.F), "ok", g["ok"], "payload", g["payload"])
+			emit("GetX", "scn", sc.ID, "e", st.E, "path", keyPath(st.E), "f", faults(st.F), "ok", g["ok"], "payload", g["payload"])
 		default:
 			fatal("scenario %d: unknown step %q", sc.ID, st.A)
 		}
 	}
+	if sc.Stress == nil {
+		for _, st := range sc.Steps {
+			step(st)
+		}
+		return
+	}
+	// free-running stress: the (read-only, undisturbed) requests are dealt to several goroutines which issue them
+	// concurrently against the ONE service; every answer is recorded when it arrives and judged like a sequential one
+	for _, st := range sc.Steps {
+		if !(st.A == "Process" || st.A == "Raw" || ((st.A == "Resolve" || st.A == "GetX") && len(st.F) == 0)) {
+			fatal("scenario %d: step %q cannot be part of a concurrent run", sc.ID, st.A)
+		}
+	}
+	// identical answers to the same request are recorded once, with their number: every DISTINCT answer is judged
+	type agg struct {
+		ev string
+		m  M
+		n  int
+	}
+	var amu sync.Mutex
+	seen := map[string]*agg{}
+	order := []*agg{}
+	emit = func(ev string, kv ...interface{}) {
+		m := M{}
+		for i := 0; i+1 < len(kv); i += 2 {
+			m[kv[i].(string)] = kv[i+1]
+		}
+		b, err := json.Marshal(m)
+		if err != nil {
+			fatal("marshal answer: %v", err)
+		}
+		key := ev + "|" + string(b)
+		amu.Lock()
+		a, ok := seen[key]
+		if !ok {
+			a = &agg{ev: ev, m: m}
+			seen[key] = a
+			order = append(order, a)
+		}
+		a.n++
+		amu.Unlock()
+	}
+	jitter.set(true)
+	logrus.SetLevel(logrus.DebugLevel) // the code under test reaches its log calls: each is a point where the goroutine yields
+	var wg sync.WaitGroup
+	start := make(chan struct{})
+	for w := 0; w < sc.Stress.Workers; w++ {
+		wg.Add(1)
+		go func(w int) {
+			defer wg.Done()
+			<-start
+			for r := 0; r < sc.Stress.Repeat; r++ {
+				for i := range sc.Steps {
+					step(sc.Steps[(i+w)%len(sc.Steps)])
+				}
+			}
+		}(w)
+	}
+	close(start)
+	wg.Wait()
+	logrus.SetLevel(logrus.PanicLevel)
+	jitter.set(false)
+	total := 0
+	for _, a := range order {
+		a.m["count"] = a.n
+		total += a.n
+		rec.EmitMap(a.ev, a.m)
+	}
+	rec.Emit("StressEnd", "scn", sc.ID, "requests", total, "distinct", len(order), "workers", sc.Stress.Workers)
 }
+
+// jitterHook makes every log call of the code under test a point where the goroutine gives up the processor
+type jitterHook struct{ on atomic.Bool }
+
+func (h *jitterHook) Levels() []logrus.Level { return logrus.AllLevels }
+func (h *jitterHook) Fire(*logrus.Entry) error {
+	if h.on.Load() {
+		runtime.Gosched()
+	}
+	return nil
+}
+func (h *jitterHook) set(on bool) { h.on.Store(on) }
+
+var jitter = &jitterHook{}
 
 func runScenarios(path, tracePath, file string) int {
 	in, err := os.Open(path)
@@ -708,6 +809,7 @@ func main() {
 	flag.Parse()
 	logrus.SetOutput(io.Discard)
 	logrus.SetLevel(logrus.PanicLevel)
+	logrus.AddHook(jitter)
 
 	in, err := os.Open(*casesPath)
 	if err != nil {
